@@ -148,6 +148,11 @@ func (h *Sources) Redo() {
 	line.pos--
 
 	if line.pos < 1 {
+		// Nothing (left) to redo: never go below the newest state.
+		if line.pos < 0 {
+			line.pos = 0
+		}
+
 		return
 	}
 
